@@ -34,6 +34,9 @@ def build_model(start=0.0, stop=5.0, dt=1.0, name="srv"):
     o.equation = S * r
     S.initial_value = 3.0
     S.equation = f - o
+    acc = m.stock("acc")            # a pure accumulator: it forgets nothing (long sessions)
+    acc.initial_value = 0.0
+    acc.equation = f
     dl = m.converter("dl")          # looks 12 time units back (long sessions)
     dl.equation = sd.delay(m, f, 12.0, 0.0)
     return m
@@ -44,6 +47,7 @@ def ref_spec(start=0.0, stop=5.0, dt=1.0, k=2.0, pts=None, r=0.1):
         "k": {"kind": "constant", "eq": ["num", k]},
         "r": {"kind": "constant", "eq": ["num", r]},
         "dl": {"kind": "converter", "eq": ["delay", "f", ["num", 12.0], ["num", 0.0]]},
+        "acc": {"kind": "stock", "init": ["num", 0.0], "eq": ["ref", "f"]},
         "g": {"kind": "converter", "eq": ["lookup", ["time"], "lk"]},
         "f": {"kind": "flow", "eq": ["bin", "*", ["ref", "k"], ["ref", "g"]]},
         "o": {"kind": "flow", "eq": ["bin", "*", ["ref", "S"], ["ref", "r"]]},
